@@ -412,7 +412,7 @@ func ipv6Workload() {
 
 func main() {
 	r = mon.Start("C20", "exploration")
-	r.Rule("IPv4: all 33 prefix lengths x (21 fixed + seeded) addresses for print/parse/mask; membership for every prefix length x base addresses x {network, network±1, broadcast, broadcast±1, 0, 255.255.255.255, bit flips at and around the prefix boundary, random} with the subnet given masked, with host bits set and through its text; ranges over fixed pairs and seeded triples. IPv6: print/parse of fixed + seeded addresses in lower, upper and zero-padded full forms, equality (/128) membership, 128-bit ranges. Ports: every value 0..65535 as start and as end, all pairs over a boundary set, seeded pairs, refused texts. Hash specs: LM:NT, :NT, NT, empty in lower/upper/mixed case wrapped in every pair of white-space prefixes/suffixes drawn from the characters strings.TrimSpace removes. Non-trivial = each distinct (value, bits), (subnet, bits, probe), (x, lo, hi), port pair, (form, case, prefix, suffix) tuple. State monitors (state.go): every method leaves receiver and arguments intact; fields of long-lived IPv4/IPv6/port-range/credential objects assigned directly and read with no call in between; returned objects held (ring of 64) and re-compared; each text parsed right after neighbours sharing part of it; 8 concurrent callers. A sample of the sequence elements counts as non-trivial.")
+	r.Rule("IPv4: all 33 prefix lengths x (21 fixed + seeded) addresses for print/parse/mask; membership for every prefix length x base addresses x {network, network±1, broadcast, broadcast±1, 0, 255.255.255.255, bit flips at and around the prefix boundary, random} with the subnet given masked, with host bits set and through its text; ranges over fixed pairs and seeded triples. IPv6: print/parse of fixed + seeded addresses in lower, upper and zero-padded full forms, equality (/128) membership, 128-bit ranges. Ports: every value 0..65535 as start and as end, all pairs over a boundary set, seeded pairs, refused texts. Hash specs: LM:NT, :NT, NT, empty in lower/upper/mixed case wrapped in every pair of white-space prefixes/suffixes drawn from the characters strings.TrimSpace removes. Non-trivial = each distinct (value, bits), (subnet, bits, probe), (x, lo, hi), port pair, (form, case, prefix, suffix) tuple. State monitors (state.go): every method leaves receiver and arguments intact; fields of long-lived IPv4/IPv6/port-range/credential objects assigned directly and read with no call in between; returned objects held (ring of 64) and re-compared; each text parsed right after neighbours sharing part of it; 8 concurrent callers. A sample of the sequence elements counts as non-trivial. In-place edits (ranges.go): one long-lived IPv4Range / IPv6Range / subnet IPv4 / TCPPortRange whose bounds are changed between membership calls without new pointers (one octet or group of an end assigned, all fields assigned, *r.Start = *x, pointers swapped, MaskBits alone; new pointers as control), probed at and around the old and the new bounds with fresh and long-lived probe objects, every answer compared with a fresh range holding the same values; a fixed script of 19 (IPv4) and 13 (IPv6) edits first, then seeded edits.")
 	r.Assume(
 		"net/netip (Prefix.Contains, Prefix.Masked, Addr.Compare, ParseAddr) is the reference; IPv4 membership is cross-checked against plain mask arithmetic (else inconclusive)",
 		"a subnet written with host bits set (192.168.1.17/24) denotes the same network as its masked form, as in net/netip",
@@ -426,6 +426,7 @@ func main() {
 	ipv6Workload()
 	portWorkload()
 	hashWorkload()
-	stateWorkload() // state.go: operands intact, stale fields, held objects, neighbour sequences, concurrent callers
+	stateWorkload()     // state.go: operands intact, stale fields, held objects, neighbour sequences, concurrent callers
+	rangeEditWorkload() // ranges.go: long-lived range / subnet objects whose bounds are edited in place between membership calls
 	r.Finish()
 }
